@@ -3,6 +3,7 @@ import Exetera.Lemmas.GenKernelsJournal
 import Exetera.Lemmas.GenKernelsJournalMerge
 import Exetera.Lemmas.GenKernelsJournalIndexed
 import Exetera.Lemmas.GenKernelsJournalMergeIndexed
+import Exetera.Lemmas.GenKernelsJournalIndices
 /-!
   C17 over the TRANSLATED journalling kernels (`Gen/Kernels.lean`, regenerated from operations.py by tools/translate_njit.py on
   every run).
@@ -213,5 +214,47 @@ example : merge_indexed_journalled_entries.run [1, 2, -1] [0, -1, 1] [true, fals
 
 example : merge_journalled_entries.run (indices [4, 4, 6] [4, 8]).1 (indices [4, 4, 6] [4, 8]).2
     (toKeep [4, 4, 6] [4, 8] (fun _ _ => true)) [7, 7, 9] [7, 5] [0, 0, 0, 0, 0] 5 = .ok [7, 7, 7, 9, 5] := by rfl
+
+/-! ### `ordered_generate_journalling_indices` (KT4B) -/
+
+/-- transfer: every `.ok` run of the model `journalIndices` (counting pass + writing pass) is a run of the TRANSLATED
+    `ordered_generate_journalling_indices` with the same pair of maps, for any fuel ≥ len(old) + len(new) -/
+theorem gen_journal_indices_ok (old new : List Int) (r : List Int × List Int) (fuel : Nat)
+    (hfuel : old.length + new.length ≤ fuel) (h : journalIndices old new = .ok r) :
+    ordered_generate_journalling_indices.run old new fuel = .ok r :=
+  ordered_generate_journalling_indices_ok old new r fuel hfuel h
+
+/-- the translated kernel IS the model on every input (no sortedness, no uniqueness assumed): the model never fails
+    (`C17.journal_indices_safe`), so the transfer is an equality -/
+theorem gen_journal_indices_eq (old new : List Int) (fuel : Nat) (hfuel : old.length + new.length ≤ fuel) :
+    ordered_generate_journalling_indices.run old new fuel = journalIndices old new := by
+  obtain ⟨om, nm, h, _⟩ := C17.journal_indices_safe old new
+  rw [h]
+  exact ordered_generate_journalling_indices_ok old new (om, nm) fuel hfuel h
+
+/-- memory safety and termination of the TRANSLATED kernel on every input: it returns normally (no subscript out of range or
+    negative, `joint < total` at every write, no loop out of fuel) and the two maps have the same length -/
+theorem gen_journal_indices_safe (old new : List Int) (fuel : Nat) (hfuel : old.length + new.length ≤ fuel) :
+    ∃ om nm, ordered_generate_journalling_indices.run old new fuel = .ok (om, nm) ∧ om.length = nm.length := by
+  obtain ⟨om, nm, h, hl⟩ := C17.journal_indices_safe old new
+  exact ⟨om, nm, ordered_generate_journalling_indices_ok old new (om, nm) fuel hfuel h, hl⟩
+
+/-- the property statement (`C17.journal_indices_spec`) for the translated kernel itself: on old keys sorted ascending and
+    strictly ascending snapshot keys it returns the specified maps — one slot per distinct key of old ∪ new in ascending order,
+    the old entry the LAST row of the key's run (or -1), the new entry the key's snapshot row (or -1) -/
+theorem gen_journal_indices_spec {old new : List Int} (hso : old.Pairwise (· ≤ ·)) (hsn : new.Pairwise (· < ·)) (fuel : Nat)
+    (hfuel : old.length + new.length ≤ fuel) :
+    ordered_generate_journalling_indices.run old new fuel = .ok (indices old new) :=
+  ordered_generate_journalling_indices_ok old new _ fuel hfuel (C17.journal_indices_spec hso hsn)
+
+example : ordered_generate_journalling_indices.run [0, 0, 0, 1, 1, 2, 3, 3, 5, 5, 5] [0, 2, 3, 4, 5, 6] 17 =
+    .ok ([2, 4, 5, 7, -1, 10, -1], [0, -1, 1, 2, 3, 4, 5]) := by rfl
+example : ([0, 0, 0, 1, 1, 2, 3, 3, 5, 5, 5] : List Int).Pairwise (· ≤ ·) ∧ ([0, 2, 3, 4, 5, 6] : List Int).Pairwise (· < ·) := by
+  decide
+/-- unsorted, repeated keys: still the model's answer -/
+example : ordered_generate_journalling_indices.run [3, 1, 1, 3, 3] [2, 2, 0] 8 = .ok ([-1, -1, -1, 0, 2, 4], [0, 1, 2, -1, -1, -1]) := by
+  rfl
+/-- too little fuel is reported, never a wrong answer -/
+example : ordered_generate_journalling_indices.run [3, 1, 1, 3, 3] [2, 2, 0] 2 = .error .outOfFuel := by rfl
 
 end Exetera.Props.C17Gen
